@@ -293,3 +293,60 @@ def prefix_write_pairs(ctx, rule, f, writer_attr='write'):
                'length prefix measures %s but %s is written' % (U(X), U(Y)),
                'a length prefix that does not measure the bytes written desynchronises the reader')
   return n
+
+
+def fresh_stream_rules(ctx, rule, producer, helpers):
+  """The request body stream handed to the mux transport is a fresh local BytesIO() per
+  request that is never repositioned/truncated by the producers, so tell() == len(getvalue())."""
+  from .paths import call_attr
+  fresh = []
+  for st in walk_no_nested(producer.node):
+    if isinstance(st, ast.Assign) and isinstance(st.value, ast.Call) and (dotted(st.value.func) or '').split('.')[-1] in ('BytesIO', 'StringIO') \
+        and not st.value.args and isinstance(st.targets[0], ast.Name):
+      fresh.append(st.targets[0].id)
+  fwd = [c for c in walk_no_nested(producer.node) if isinstance(c, ast.Call) and call_attr(c) == 'AsyncProcessRequest' and len(c.args) >= 3]
+  ok = bool(fwd) and all(isinstance(c.args[2], ast.Name) and c.args[2].id in fresh for c in fwd)
+  ctx.ob(rule, producer, 'request body is a fresh per-request BytesIO()', ok,
+         'the stream forwarded to the transport is %s, fresh locals are %s' % ([U(c.args[2]) for c in fwd], fresh),
+         'the transport declares stream.tell() bytes and sends stream.getvalue(): they only agree on a fresh stream written front to back (a reused/rewound buffer leaves a stale tail or a short count)')
+  bad = []
+  for g in [producer] + list(helpers):
+    for c in walk_no_nested(g.node):
+      if isinstance(c, ast.Call) and call_attr(c) in ('seek', 'truncate'):
+        bad.append(g.qualname)
+  ctx.ob(rule, producer, 'producers never reposition the request stream', not bad,
+         'request stream is repositioned/truncated in %s' % bad,
+         'after a seek, tell() no longer equals len(getvalue()) and the declared length is wrong')
+
+
+def transport_len_rules(ctx, rule):
+  """Mux transport: the body length handed to _BuildHeader is measured on the stream whose
+  bytes are sent, and the queued frame is <header> + stream.getvalue()."""
+  from .paths import call_attr
+  prog = ctx.prog
+  t = prog.func('scales/mux/sink.py', 'MuxSocketTransportSink.AsyncProcessRequest')
+  tdefs = local_defs(t.node)
+  stream = t.params[3]
+  calls = [c for c in walk_no_nested(t.node) if isinstance(c, ast.Call) and call_attr(c) == '_BuildHeader']
+  ctx.floor(rule, '_BuildHeader call sites in the mux transport', len(calls), 1)
+  for c in calls:
+    dl = resolve_local(c.args[2], tdefs, c.lineno) if len(c.args) >= 3 else None
+    ok = dl is not None and U(dl) in ('%s.tell()' % stream, 'len(%s.getvalue())' % stream)
+    ctx.ob(rule, t, 'data_len source', ok,
+           'data_len passed to _BuildHeader is %s' % (U(dl) if dl is not None else '?'),
+           'the declared body length must be measured on the stream whose bytes are sent')
+    hdr_names = [st.targets[0].id for st in walk_no_nested(t.node)
+                 if isinstance(st, ast.Assign) and st.value is c and isinstance(st.targets[0], ast.Name)]
+    puts = [p for p in walk_no_nested(t.node) if isinstance(p, ast.Call) and call_attr(p) == 'put']
+    okp = False
+    for p in puts:
+      if not p.args:
+        continue
+      el = p.args[0].elts[0] if isinstance(p.args[0], ast.Tuple) and p.args[0].elts else p.args[0]
+      el = resolve_local(el, tdefs, p.lineno)
+      if (isinstance(el, ast.BinOp) and isinstance(el.op, ast.Add) and isinstance(el.left, ast.Name)
+          and el.left.id in hdr_names and U(el.right) == '%s.getvalue()' % stream):
+        okp = True
+    ctx.ob(rule, t, 'frame = header + stream bytes', okp,
+           'the queued frame is not <header> + %s.getvalue()' % stream,
+           'the bytes after the header must be exactly the measured body')
